@@ -607,7 +607,7 @@ func (r *recorder) close() { r.w.Flush(); r.fh.Close() }
 // record runs the real Encoder on v in all 16 modes (lists: both list APIs), the
 // real Decoder of the other side on what was written, and writes one record per
 // group of modes with the same observation.
-func (r *recorder) record(v *value) {
+func (r *recorder) record(v *value) (nontrivial bool) {
 	type group struct {
 		ms  []int
 		rec map[string]interface{}
@@ -656,6 +656,10 @@ func (r *recorder) record(v *value) {
 			if obs.Err {
 				r.refused++
 			}
+			// the encoder had to do more than copy the value between quotes
+			if obs.Err || bytes.ContainsAny(obs.Bytes, "{\\&(") || (v.kind == "mbox" && bytes.HasPrefix(obs.Bytes, []byte("INBOX "))) {
+				nontrivial = true
+			}
 		}
 	}
 	for _, key := range order {
@@ -669,6 +673,7 @@ func (r *recorder) record(v *value) {
 		r.w.WriteByte('\n')
 		r.records++
 	}
+	return nontrivial
 }
 
 // ---------------------------------------------------------------- (ii) decoder cases
@@ -847,23 +852,6 @@ func compactVal(v interface{}) string {
 	return compact(b)
 }
 
-func nontrivialLine(ln *lineT) bool {
-	if ln.Refuse {
-		return true
-	}
-	for _, r := range ln.Reps {
-		if len(r.B) > 0 && (r.B[0] == '{' || r.B[0] == '(') {
-			return true
-		}
-		for _, c := range r.B {
-			if c == '\\' || c == '&' {
-				return true
-			}
-		}
-	}
-	return false
-}
-
 func cmdReplay(path, tracePath string) {
 	out := vh.NewOut()
 	defer out.Flush()
@@ -883,10 +871,9 @@ func cmdReplay(path, tracePath string) {
 			return err
 		}
 		st.behaviours++
-		if nontrivialLine(ln) {
+		if rec.record(v) {
 			st.nontrivial++
 		}
-		rec.record(v)
 		runLineDecoders(ln, st, out)
 		if len(st.samples) < 3 && st.behaviours%97 == 5 {
 			st.samples = append(st.samples, map[string]interface{}{"k": ln.K, "v": ln.V, "reps": len(ln.Reps)})
